@@ -8,11 +8,23 @@
  *
  *   memdrive --batch FILE [--timeout T] [--bt] [--mem M] [--stack S]
  *
- * FILE: cases  "@@@ <id> <nbytes> [path=<NEVER_PATH>] [compile-only] [mem=<M>] [stack=<S>]\n<bytes>\n".
+ * FILE: cases  "@@@ <id> <nbytes> [path=<NEVER_PATH>] [compile-only] [mem=<M>] [stack=<S>]
+ *                  [entry=<name>] [args=<a1>,<a2>,...] [mode=argv|params] [runs=<R>] [vms=<V>] [reprepare]\n<bytes>\n".
  * Each case runs in a forked child:
- *     program_new(); nev_compile_str(); [nev_prepare("main"); vm_new(); nev_execute(); vm_delete();]
+ *     program_new(); nev_compile_str(); [nev_prepare(entry);
+ *         V x { vm_new(); R x nev_execute(); vm_delete(); }]
  *     program_delete();
  * and everything between the start of program_new() and the return of program_delete() is logged.
+ * With args=: the argument strings (and the argv vector) are HOST memory, allocated outside the log.  mode=argv hands
+ * them over through nev_prepare_argc_argv(), mode=params stores them into prog->params[] after nev_prepare() the way
+ * an embedding application does (int / float converted, string = the host pointer).  `reprepare` prepares again
+ * before every nev_execute.  A free()/realloc() of host memory by libnev is logged like any other free (the monitor
+ * rejects it: the block was never allocated inside the bracket), reported as
+ *     @@HOST <id> freed <hex return addresses>        and NOT performed (the host's memory stays usable);
+ * after program_delete every host buffer is compared with the copy taken before the run:
+ *     @@HOST <id> written <index of the buffer>
+ * Before every vm_delete:
+ *     @@HEAP <id> vm=<k> size=<mem_size> used=<cells holding an object> first=<cell 1 in use> last=<cell size-1 in use>
  * Output (stdout), per case:
  *     @@BEGIN <id>
  *     M <blk> <size> | C <blk> <size> | R <old> <new> <size> | S <blk> | F <blk>     one per call
@@ -39,6 +51,7 @@
 #include <sys/wait.h>
 #include <sys/types.h>
 #include "nev.h"
+#include "gc.h"
 
 void * __real_malloc(size_t);
 void * __real_calloc(size_t, size_t);
@@ -184,6 +197,54 @@ static void released(uint32_t id, void * ra)
     g_live[id] = 0;
 }
 
+/* ---- memory owned by the host application (argument strings, argv vector) ------------------------------- */
+#define MAX_HOST 80
+static char * g_host_ptr[MAX_HOST];
+static size_t g_host_len[MAX_HOST];
+static char * g_host_copy[MAX_HOST];
+static int g_host_n = 0;
+static int g_host_freed = 0;
+
+static char * host_alloc(const void * data, size_t len)
+{
+    char * p = __real_malloc(len ? len : 1);
+    memcpy(p, data, len);
+    if (g_host_n < MAX_HOST)
+    {
+        g_host_ptr[g_host_n] = p; g_host_len[g_host_n] = len;
+        g_host_copy[g_host_n] = __real_malloc(len ? len : 1); memcpy(g_host_copy[g_host_n], data, len);
+        g_host_n++;
+    }
+    return p;
+}
+
+static int host_owned(void * p)
+{
+    int i;
+    for (i = 0; i < g_host_n; i++)
+        if ((char *)p >= g_host_ptr[i] && (char *)p < g_host_ptr[i] + (g_host_len[i] ? g_host_len[i] : 1)) return 1;
+    return 0;
+}
+
+static void host_freed(void * ra)
+{
+    char tmp[400];
+    int n = snprintf(tmp, sizeof tmp, "@@HOST %s freed %lx", g_id, (unsigned long)ra);
+    if (g_bt)
+    {
+        void * fr[BT_DEPTH + 3];
+        int was = g_on, k, i;
+        g_on = 0;
+        k = backtrace(fr, BT_DEPTH + 3);
+        g_on = was;
+        n = snprintf(tmp, sizeof tmp, "@@HOST %s freed ", g_id);
+        for (i = 2; i < k; i++) n += snprintf(tmp + n, sizeof tmp - n, "%s%lx", i > 2 ? "," : "", (unsigned long)fr[i]);
+    }
+    n += snprintf(tmp + n, sizeof tmp - n, "\n");
+    ev_put(tmp, (size_t)n);
+    g_host_freed++;
+}
+
 void * __wrap_malloc(size_t n)
 {
     void * p = __real_malloc(n);
@@ -201,7 +262,18 @@ void * __wrap_calloc(size_t a, size_t b)
 void * __wrap_realloc(void * old, size_t n)
 {
     uint32_t oid = g_on ? id_of(old) : 0;
-    void * p = __real_realloc(old, n);
+    void * p;
+    if (g_on && old != NULL && host_owned(old))
+    {
+        /* libnev reallocates the host's memory: logged (rejected by the monitor), served from a new block instead */
+        host_freed(__builtin_return_address(0));
+        p = __real_malloc(n);
+        ev_line("R %lu %lu %lu\n", oid, id_of(p), n, 3);
+        released(oid, __builtin_return_address(0));
+        acquired(id_of(p), __builtin_return_address(0));
+        return p;
+    }
+    p = __real_realloc(old, n);
     if (g_on)
     {
         uint32_t id = id_of(p);
@@ -215,6 +287,7 @@ void * __wrap_realloc(void * old, size_t n)
 void __wrap_free(void * p)
 {
     if (g_on && p != NULL) { uint32_t id = id_of(p); ev_line("F %lu\n", id, 0, 0, 1); released(id, __builtin_return_address(0)); }
+    if (g_on && p != NULL && host_owned(p)) { host_freed(__builtin_return_address(0)); return; }
     __real_free(p);
 }
 
@@ -279,13 +352,60 @@ static void dump_out(int ofd)
     ev_put(esc, (size_t)n);
 }
 
-static void run_one(const char * src, int compile_only, unsigned mem, unsigned stack, int ofd)
+typedef struct
+{
+    const char * entry;
+    int nargs;
+    char * args[64];          /* text of the arguments (driver memory; copied into host buffers) */
+    int mode_params, runs, vms, reprepare;
+} call_spec;
+
+static char ** g_hargv = NULL;     /* the host's argv vector and strings */
+
+static int prepare_entry(program * prog, call_spec * cs)
 {
     int ret;
+    unsigned i;
+    if (cs->nargs == 0 && !cs->mode_params) return nev_prepare(prog, cs->entry);
+    if (!cs->mode_params) return nev_prepare_argc_argv(prog, cs->entry, (unsigned)cs->nargs, g_hargv);
+    ret = nev_prepare(prog, cs->entry);
+    if (ret != 0) return ret;
+    for (i = 0; i < prog->params_count; i++)
+    {
+        const char * a = (int)i < cs->nargs ? g_hargv[i] : "0";
+        if (prog->params[i].type == OBJECT_INT) prog->params[i].int_value = atoi(a);
+        else if (prog->params[i].type == OBJECT_FLOAT) prog->params[i].float_value = (float)atof(a);
+        else if (prog->params[i].type == OBJECT_STRING_REF) prog->params[i].string_value = (int)i < cs->nargs ? g_hargv[i] : g_hargv[cs->nargs];
+        else return 77;        /* a parameter kind that can only be filled by nev_prepare_argc_argv */
+    }
+    return 0;
+}
+
+static void heap_line(vm * machine, int k)
+{
+    char tmp[200];
+    gc * c = machine->collector;
+    unsigned i, used = 0;
+    for (i = 0; i < c->mem_size; i++) if (c->mem[i].object_value != NULL) used++;
+    ev_put(tmp, (size_t)snprintf(tmp, sizeof tmp, "@@HEAP %s vm=%d size=%u used=%u first=%d last=%d\n", g_id, k, c->mem_size, used,
+                                 c->mem_size > 1 && c->mem[1].object_value != NULL,
+                                 c->mem_size > 1 && c->mem[c->mem_size - 1].object_value != NULL));
+}
+
+static void run_one(const char * src, int compile_only, unsigned mem, unsigned stack, int ofd, call_spec * cs)
+{
+    int ret, i, k, r;
     char tmp[400];
     object result = { 0 };
     vm * machine = NULL;
     program * prog;
+
+    /* the host's own memory: allocated before the bracket opens, never logged */
+    g_hargv = (char **)host_alloc(cs->args, (size_t)(cs->nargs + 2) * sizeof(char *));
+    for (i = 0; i < cs->nargs; i++) g_hargv[i] = host_alloc(cs->args[i], strlen(cs->args[i]) + 1);
+    g_hargv[cs->nargs] = host_alloc("", 1);
+    g_hargv[cs->nargs + 1] = NULL;
+    memcpy(g_host_copy[0], g_hargv, (size_t)(cs->nargs + 2) * sizeof(char *));
 
     g_on = 1;
     prog = program_new();
@@ -302,27 +422,38 @@ static void run_one(const char * src, int compile_only, unsigned mem, unsigned s
     else
     {
         phase("prepare");
-        ret = nev_prepare(prog, "main");
+        ret = prepare_entry(prog, cs);
         if (ret != 0)
         {
             ev_put(tmp, (size_t)snprintf(tmp, sizeof tmp, "@@OUTCOME %s PREPARE_ERROR %d\n", g_id, ret));
         }
         else
         {
-            machine = vm_new(mem, stack);
-            phase("execute");
-            ret = nev_execute(prog, machine, &result);
-            fflush(stdout);
-            if (ret == 0) ev_put(tmp, (size_t)snprintf(tmp, sizeof tmp, "@@OUTCOME %s RESULT %d\n", g_id, (int)result.type));
-            else ev_put(tmp, (size_t)snprintf(tmp, sizeof tmp, "@@OUTCOME %s EXEC_ERROR %d\n", g_id, ret));
-            phase("vm_delete");
-            vm_delete(machine);
+            for (k = 0; k < cs->vms; k++)
+            {
+                machine = vm_new(mem, stack);
+                for (r = 0; r < cs->runs; r++)
+                {
+                    if (cs->reprepare && (k > 0 || r > 0)) { phase("prepare"); prepare_entry(prog, cs); }
+                    phase("execute");
+                    ret = nev_execute(prog, machine, &result);
+                    fflush(stdout);
+                    if (ret == 0) ev_put(tmp, (size_t)snprintf(tmp, sizeof tmp, "@@OUTCOME %s RESULT %d\n", g_id, (int)result.type));
+                    else ev_put(tmp, (size_t)snprintf(tmp, sizeof tmp, "@@OUTCOME %s EXEC_ERROR %d\n", g_id, ret));
+                }
+                heap_line(machine, k);
+                phase("vm_delete");
+                vm_delete(machine);
+            }
         }
     }
     phase("program_delete");
     program_delete(prog);
     g_on = 0;
     phase("done");
+    for (i = 0; i < g_host_n; i++)
+        if (memcmp(g_host_ptr[i], g_host_copy[i], g_host_len[i]) != 0)
+            ev_put(tmp, (size_t)snprintf(tmp, sizeof tmp, "@@HOST %s written %d\n", g_id, i));
     {
         uint32_t i;
         int shown = 0;
@@ -370,6 +501,8 @@ int main(int argc, char ** argv)
         *eol = 0;
         char id[256] = "?", pathopt[1024] = "";
         long nbytes = 0; int compile_only = 0; unsigned mem = g_mem, stack = g_stack;
+        call_spec cs = { "main", 0, { 0 }, 0, 1, 1, 0 };
+        char entrybuf[128];
         char * tok = strtok(p + 4, " ");
         int k = 0;
         while (tok)
@@ -380,6 +513,17 @@ int main(int argc, char ** argv)
             else if (!strcmp(tok, "compile-only")) compile_only = 1;
             else if (!strncmp(tok, "mem=", 4)) mem = (unsigned)atoi(tok + 4);
             else if (!strncmp(tok, "stack=", 6)) stack = (unsigned)atoi(tok + 6);
+            else if (!strncmp(tok, "entry=", 6)) { snprintf(entrybuf, sizeof entrybuf, "%s", tok + 6); cs.entry = entrybuf; }
+            else if (!strcmp(tok, "mode=params")) cs.mode_params = 1;
+            else if (!strncmp(tok, "runs=", 5)) cs.runs = atoi(tok + 5) > 0 ? atoi(tok + 5) : 1;
+            else if (!strncmp(tok, "vms=", 4)) cs.vms = atoi(tok + 4) > 0 ? atoi(tok + 4) : 1;
+            else if (!strcmp(tok, "reprepare")) cs.reprepare = 1;
+            else if (!strncmp(tok, "args=", 5))
+            {
+                /* comma-separated; the pieces stay inside this header line, which strtok has already passed */
+                char * a = tok + 5;
+                while (a && *a && cs.nargs < 62) { char * c = strchr(a, ','); if (c) *c = 0; cs.args[cs.nargs++] = a; a = c ? c + 1 : NULL; }
+            }
             k++;
             tok = strtok(NULL, " ");
         }
@@ -405,7 +549,7 @@ int main(int argc, char ** argv)
             atexit(at_exit_flush);
             signal(SIGSEGV, on_signal); signal(SIGABRT, on_signal); signal(SIGFPE, on_signal); signal(SIGBUS, on_signal);
             alarm(timeout);
-            run_one(src, compile_only, mem, stack, ofd);
+            run_one(src, compile_only, mem, stack, ofd, &cs);
             _exit(0);
         }
         int st = 0;
